@@ -47,13 +47,13 @@ def run(rep, work, tier, seed):
                    cfg_text(dict(small, Bug="swallow_wait_cancel"), invariants=INVS), ["NotSwallowed"])
         leg_mutant(rep, work, SPEC, "mutant_check_never",
                    cfg_text(dict(small, Bug="check_never"), spec="Spec", invariants=INVS, properties=PROPS), ["CheckAgrees"])
-    leg_r(rep, work, SPEC, f"conf_{tier}", cfg_text(conf, invariants=INVS), ScopeTasksDriver)
+    leg_r(rep, work, SPEC, f"conf_{tier}", cfg_text(conf, invariants=INVS), ScopeTasksDriver, world=True)
     # cancellation at the suspension points INSIDE __aenter__ / __aexit__ (disposables, rollback, exit wait)
     life = dict(ND=2, NC=1, Behaviours=["ok", "fail", "susp"], Bug="none") if tier == "quick" else \
         dict(ND=2, NC=2, Behaviours=["ok", "fail", "susp"], Bug="none")
     life_invs = ["TypeOK", "CancelNotLost", "CancelAbortsMembers", "NoWaitAfterFailure", "Restored"]
     leg_m(rep, work, "ScopeLife", f"life_mc_{tier}", cfg_text(life, invariants=life_invs), expect_actions=["Cancel"])
-    leg_r(rep, work, "ScopeLife", f"life_conf_{tier}", cfg_text(life, invariants=life_invs), ScopeLifeDriver)
+    leg_r(rep, work, "ScopeLife", f"life_conf_{tier}", cfg_text(life, invariants=life_invs), ScopeLifeDriver, world=True)
     # leg T: random programs of 5 tasks (~30 operations) recorded from the real library, validated by a trace module
     # generated from ScopeTasks.tla (existential acceptance: the spec is nondeterministic where the stdlib is)
     from props.scopetasks_common import TRACE_KW, gen_trace
